@@ -113,7 +113,7 @@ struct Box {
   // Executes one op through the public API. guide (serial replay only) carries the result recorded in the
   // concurrent run: where several parallel edges qualify, the one with the recorded data is taken.
   // bare: no liveness pre-check (it would pre-acquire the operands), static live node set.
-  void apply(const Op& op, Res& r, const Res* guide, galois::MethodFlag mf, bool bare) {
+  void apply(const Op& op, Res& r, const Res* guide, galois::MethodFlag mf, bool bare, unsigned slowNs = 0) {
     r = Res();
     if (op.kind == K_ADD_NODE) {
       if (op.a < n && !h(op.a)) {
@@ -357,6 +357,16 @@ struct Box {
       if constexpr (kSorted)
         if (!sortedRange(g.edge_begin(a, galois::MethodFlag::UNPROTECTED), g.edge_end(a, mf)))
           r.bad = B_UNSORTED;
+      if (slowNs) { // the neighbourhood is owned: a second enumeration a little later must see the same
+        busy_delay_ns(slowNs);
+        uint64_t c2 = 0, h2 = 0;
+        for (EI it = g.edge_begin(a, mf), e = g.edge_end(a, mf); it != e; ++it) {
+          ++c2;
+          h2 += mix(g.getData(g.getEdgeDst(it), galois::MethodFlag::UNPROTECTED).lid + 1, g.getEdgeData(it));
+        }
+        if (c2 != c || h2 != hsh)
+          r.bad = B_ENUM_UNSTABLE;
+      }
       break;
     }
     case K_ENUM_IN: {
@@ -371,6 +381,16 @@ struct Box {
         if constexpr (kSorted)
           if (!sortedRange(g.in_edge_begin(a, galois::MethodFlag::UNPROTECTED), g.in_edge_end(a, mf)))
             r.bad = B_UNSORTED;
+        if (slowNs) {
+          busy_delay_ns(slowNs);
+          uint64_t c2 = 0, h2 = 0;
+          for (auto it = g.in_edge_begin(a, mf), e = g.in_edge_end(a, mf); it != e; ++it) {
+            ++c2;
+            h2 += mix(g.getData(g.getEdgeDst(it), galois::MethodFlag::UNPROTECTED).lid + 1, g.getEdgeData(it));
+          }
+          if (c2 != c || h2 != hsh)
+            r.bad = B_ENUM_UNSTABLE;
+        }
       }
       break;
     }
@@ -665,7 +685,7 @@ struct Runner {
     c.item = item;
     if (spec.mode == M_BARE) {
       // single API call relying on its internal acquires; may abort inside (before it modified anything)
-      conc->apply(p.ops[0], c.res[0], nullptr, galois::MethodFlag::WRITE, true);
+      conc->apply(p.ops[0], c.res[0], nullptr, galois::MethodFlag::WRITE, true, p.delay ? 1500 + (item % 5) * 700 : 0);
       delay(p, item);
       c.ticket = ticket();
     } else {
@@ -673,8 +693,10 @@ struct Runner {
       delay(p, item);
       c.ticket = ticket(); // commit point: everything below only re-acquires owned nodes
       tl.inC   = true;
+      if (p.delay) // slow owner after the commit point as well: later tickets are taken while this item still works
+        busy_delay_ns(1000 + (item % 7) * 1500);
       for (unsigned i = 0; i < p.nops; ++i) {
-        conc->apply(p.ops[i], c.res[i], nullptr, mfC, false);
+        conc->apply(p.ops[i], c.res[i], nullptr, mfC, false, p.delay ? 1500 + (item % 5) * 700 : 0);
         if (p.delay == 3)
           busy_delay_ns(800);
       }
